@@ -48,6 +48,11 @@ def families(tier):
             sid = f'y{ybus}-b{before}-q{other_q}-{late}-{cshape}-k{k}-o{"".join(o)}'
             out.append(dict(prop='C05', family='c05.queue_jump', id='c05/' + sid, cfg=cfg, params=dict(ybus=ybus, before=before, k=k),
                             scn=dict(buses=buses, order=o, handlers=hs, main=main, actors=actors, forwards=[], settle=3.0)))
+            if before and late == 'none' and cshape in ('ret', 'pause') and k == 0 and len(buses) == 2:
+                # the same with a second EventBus constructed under the name of the child's bus / of the awaiting bus (it is renamed; the older bus must stay findable)
+                for dup in ('A', 'B'):
+                    out.append(dict(prop='C05', family='c05.queue_jump_renamed_twin', id=f'c05/twin{dup}-' + sid, cfg=cfg, params=dict(ybus=ybus, before=before, k=k),
+                                    scn=dict(buses=buses, order=o, handlers=hs, main=main, actors=actors, forwards=[], settle=3.0, dup_names=[dup])))
     # the grammar-generated corpus shared by the bus properties (vsched/gen.py), judged by this property's oracle
     from .. import gen
     out += gen.family('C05', tier, params=dict(ybus='?', before=0, k=0), timeouts=(None,), allow_parallel=False)
@@ -58,13 +63,19 @@ def _windows(tr):
     for a in tr.awaits:
         if a['who'] not in tr.who_info:
             continue
-        end = a['end'] if a['end'] is not None else tr.end_seq
+        # the window of the statement runs from the start of the await to the child's COMPLETION.  It ends earlier only where the handler gave the
+        # await up (cancelled / raised: a time-out of its own or of an enclosing handler); an await that simply returns before the child is complete
+        # does not close it (the child was then not 'processed immediately, before any other pending event')
+        done = None
         s = tr.states.get(a['ev'])
         if s:
             for seq, st in zip(*s):
                 if seq > a['begin'] and Trace.st_complete(st):
-                    end = min(end, seq)
+                    done = seq
                     break
+        end = done if done is not None else tr.end_seq
+        if a['end'] is not None and a['kind'] != 'await-end':
+            end = min(end, a['end'])
         yield a, end
 
 
